@@ -3,3 +3,30 @@
 From V Require Import lib.Base gen.GenLocks model.Conc spec.ConcSpec.
 
 Definition clean_all : bool := forallb clean_method api_methods.
+
+(* ------------------------------------------------------------------ one critical section per call *)
+(* The linearisation theorem (C09_cs_linearisation) is about calls that are ONE critical section of
+   ns.mu.  On the regenerated summaries: the Lock sites of ns.mu in the functions a method can reach
+   (each function counted once).  A method that takes the mutex at two sites can observe the shared
+   analysis state, release the mutex, and act on what it observed in a second critical section. *)
+Definition is_lock_site (a : access) : bool :=
+  match a with Acc f _ _ => bytes_eqb f (B "ns.mu.Lock") | _ => false end.
+
+Fixpoint dedup_names (seen : list bytes) (l : list bytes) : list bytes :=
+  match l with
+  | [] => []
+  | x :: r => if existsb (bytes_eqb x) seen then dedup_names seen r else x :: dedup_names (x :: seen) r
+  end.
+
+Definition reached_functions (m : bytes) : list bytes := dedup_names [] (map fst (w_vis (method_walk m))).
+
+Definition lock_sites (m : bytes) : list (bytes * nat) :=
+  flat_map (fun f => match assoc_bytes f lock_summaries with
+                     | Some body => match length (filter is_lock_site body) with O => [] | n => [(f, n)] end
+                     | None => []
+                     end) (reached_functions m).
+
+Definition lock_site_count (m : bytes) : nat := fold_left (fun acc x => (acc + snd x)%nat) (lock_sites m) O.
+
+Definition one_cs_method (m : bytes) : bool := Nat.leb (lock_site_count m) 1.
+Definition one_cs_all : bool := forallb one_cs_method api_methods.
